@@ -970,6 +970,11 @@ orc_parse_sanity_check (OrcParser *parser, OrcProgram *program)
 {
   int i;
   int j;
+  /* which variables have been written so far.  Kept here, not in
+   * program->vars[].used: that flag belongs to the compiler, which starts from
+   * a copy of the program's variables and takes a set flag for an earlier
+   * definition */
+  orc_bool written[ORC_N_VARIABLES] = { FALSE };
 
   for(i=0;i<=ORC_VAR_T15;i++) {
     if (program->vars[i].size == 0) {
@@ -995,24 +1000,24 @@ orc_parse_sanity_check (OrcParser *parser, OrcProgram *program)
       if (opcode->dest_size[j] == 0) {
         continue;
       }
-      if (program->vars[insn->dest_args[j]].used &&
+      if (written[insn->dest_args[j]] &&
           program->vars[insn->dest_args[j]].vartype == ORC_VAR_TYPE_DEST) {
         orc_parse_add_error (parser, "destination %d \"%s\" written multiple times",
             j+1, program->vars[insn->dest_args[j]].name);
       }
-      program->vars[insn->dest_args[j]].used = TRUE;
+      written[insn->dest_args[j]] = TRUE;
     }
 
     for(j=0;j<ORC_STATIC_OPCODE_N_SRC;j++){
       if (opcode->src_size[j] == 0) {
         continue;
       }
-      if (program->vars[insn->src_args[j]].used &&
+      if (written[insn->src_args[j]] &&
           program->vars[insn->src_args[j]].vartype == ORC_VAR_TYPE_SRC) {
         orc_parse_add_error (parser, "source %d \"%s\" read multiple times",
             j+1, program->vars[insn->src_args[j]].name);
       }
-      if (!program->vars[insn->src_args[j]].used &&
+      if (!written[insn->src_args[j]] &&
           program->vars[insn->src_args[j]].vartype == ORC_VAR_TYPE_TEMP) {
         orc_parse_add_error (parser, "variable %d \"%s\" used before being written",
             j+1, program->vars[insn->src_args[j]].name);
